@@ -5,6 +5,6 @@ cd "$(dirname "$0")"
 g++ -O2 -g -std=c++17 $(llvm-config-14 --cxxflags | sed 's/-std=c++14//; s/-fno-exceptions//') -fexceptions sqsym.cc -o sqsym.new $(llvm-config-14 --ldflags --libs) -lz3 && mv -f sqsym.new sqsym
 cd models
 gcc gen_ctype.c -o gen_ctype && ./gen_ctype > ctype_tables.h && rm -f gen_ctype
-clang-14 -O1 -fno-builtin -fno-vectorize -fno-slp-vectorize -fno-unroll-loops -Wno-everything -emit-llvm -c libc.c -o libc.bc
+clang-14 -O1 -fno-builtin -fno-vectorize -fno-slp-vectorize -fno-unroll-loops -Wno-everything -emit-llvm -c libc.c -o libc.bc.new && mv -f libc.bc.new libc.bc
 for f in *.cc; do [ -f "$f" ] && clang++-14 -std=c++17 -O1 -fno-builtin -fno-vectorize -fno-slp-vectorize -fno-unroll-loops -Wno-everything -emit-llvm -c "$f" -o "${f%.cc}.bc"; done
 echo "engine built"
